@@ -370,10 +370,14 @@ def compile_one(req, outdir):
     cfile = os.path.join(d, "m.c")
     res = {"id": req["id"], "outcome": None, "errors": [], "exc": None}
     recorded = []
-    real_report = Errors.report_error
+    real_report = getattr(Errors, "_c43_real_report", None) or Errors.report_error
+    Errors._c43_real_report = real_report
     def spy(err, use_stack=True):
         try:
-            if not getattr(err, "reported", False):
+            # an error that goes onto a hold_errors() stack is not reported yet: the parser's speculative parses
+            # (soft keyword 'match' read as a statement first) discard theirs; released ones come back through here
+            held = bool(Errors.threadlocal.cython_errors_stack) and use_stack
+            if not held and not getattr(err, "reported", False):
                 pos = getattr(err, "position", None)
                 recorded.append({"type": type(err).__name__, "pos": bool(pos) and len(pos) == 3 and pos[1] is not None,
                                  "msg": (lambda m_: m_ if len(m_) <= 700 else m_[:300] + "\n...\n" + m_[-400:])(str(getattr(err, "message_only", err)))})
@@ -381,7 +385,10 @@ def compile_one(req, outdir):
             recorded.append({"type": "?", "pos": False, "msg": repr(e)})
         return real_report(err, use_stack)
     Errors.report_error = spy
-    directives = dict(Options.get_directive_defaults()); directives["language_level"] = 3
+    for m_ in list(sys.modules.values()):     # modules that did 'from .Errors import report_error' (deferred releases in ExprNodes, MatchCaseNodes)
+        if getattr(m_, "__name__", "").startswith("Cython.") and "report_error" in getattr(m_, "__dict__", {}) and m_ is not Errors:
+            m_.report_error = spy
+    directives =dict(Options.get_directive_defaults()); directives["language_level"] = 3
     opts = Main.CompilationOptions(Main.default_options, compiler_directives=directives, output_file=cfile)
     err = io.StringIO()
     try:
